@@ -14,9 +14,9 @@ def run(ctx):
         behs += sc.run_family(ctx, cfg, c, 10000 if big else 1000, design=(cfg == "ebgp"))
     c = sc.consts("ap", {"ok"}, {"apA1A2", "pfxLen33", "nlriTrunc", "attrLenShort", "noAttrs", "asPathTrunc"}, set(), set(), 6, sessions=1)
     behs += sc.run_family(ctx, "add-path", c, 3000 if big else 300, design=False)
-    ctx.rule = ("14 malformed UPDATE classes (withdrawn / attribute length beyond the message, attribute section shorter than its "
+    ctx.rule = ("17 malformed UPDATE classes (withdrawn / attribute length beyond the message, attribute section shorter than its "
                 "attributes, ORIGIN / NEXT_HOP / MED with a wrong fixed length, AS_PATH segment beyond the attribute, IPv4 prefix length "
-                "33, IPv6 prefix length 129, reachable NLRI without ORIGIN / AS_PATH / NEXT_HOP / any attribute, truncated NLRI) sent on "
+                "33, IPv6 prefix length 129, reachable NLRI without ORIGIN / AS_PATH / NEXT_HOP / any attribute, IPv4 NLRI without NEXT_HOP next to an MP_REACH_NLRI, MP_REACH_NLRI without ORIGIN / AS_PATH, truncated NLRI) sent on "
                 "an established real session (eBGP, iBGP, 2- and 4-octet AS, add-path) with and without routes already learned; the "
                 "model says the Adj-RIB-In and the Loc-RIB are unchanged by the message (and emptied by the session reset that follows); "
                 "non-trivial = a malformed UPDATE reaches Established")
